@@ -15,7 +15,7 @@ def design_level(ctx):
     ctx.tlc_must_hold(SUB, "MCScheduler", cfg="MCSched_v1_quick.cfg" if q else "MCSched_v1_thorough.cfg", workers=4,
                       timeout=600 if q else 3000, label="PoA v1, n <= %d" % (3 if q else 4))
     if not q:
-        ctx.tlc_must_hold(SUB, "MCScheduler", cfg="MCSched_n6.cfg", workers=4, timeout=3000, label="PoA v2 + PoS, n <= 6, T = 1")
+        ctx.tlc_must_hold(SUB, "MCScheduler", cfg="MCSched_n6.cfg", workers=4, timeout=3000, label="PoS (same slot rule as PoA v2, plus weights), n <= 6, T = 1")
     # vacuity guard: statements that are false of the schedulers must be refuted by the same configuration
     guards = ["X_UniqueAmongListed"] if q else ["X_UniqueAmongListed", "X_NoWait", "X_NoOff"]
     base = open(ctx.specdir(SUB) + "/MCSched_guard.cfg").read()
